@@ -200,9 +200,11 @@ static void group_stacks(Args &A, const std::string &which, int sub) {
 	const bool T = A.thorough();
 	std::vector<unsigned long> kappas = { 0, 1, 8, 16 }; if (T) { kappas.push_back(32); kappas.push_back(64); }
 	std::vector<size_t> ns = { 2, 3, 5, 8 }; if (T) { ns.push_back(13); ns.push_back(32); }   // the property quantifies over n >= 2 (the arguments assert it)
-	// |q| = 100: ell_e = 18 is the admissibility boundary |q| = 2*ell_e + 64
+	// both quick parameter sets sit on the admissibility boundary |q| = 2*ell_e + 64.  ell_e is kept >= 32 on purpose: the
+	// public-coin and non-interactive SKC verifiers `assert` that the challenge e is invertible mod q (GrothVSSHE.cc:921,1111,...),
+	// so a jointly flipped / hashed e = 0 (probability 2^-ell_e) aborts the verifier -- observed with ell_e = 8, see docs/C03.md O-c
 	std::vector<std::pair<Grp, unsigned long> > gs;
-	gs.push_back(std::make_pair(gen_group(160, 100), 8UL)); gs.push_back(std::make_pair(gen_group(192, 100), 18UL));
+	gs.push_back(std::make_pair(gen_group(192, 128), 32UL)); gs.push_back(std::make_pair(gen_group(224, 160), 48UL));
 	if (T) gs.push_back(std::make_pair(gen_group(512, 224), 80UL));
 	if (which != "groth" && !T) gs.pop_back();     // the second group differs only in l_e
 	int gi = -1;
@@ -312,8 +314,8 @@ static void group_rabin(Args &A) {
 static void group_skc(Args &A) {
 	const bool T = A.thorough();
 	std::vector<size_t> ns = { 2, 3, 5, 8 }; if (T) { ns.push_back(13); ns.push_back(32); }
-	for (unsigned long le : { 8UL, 18UL }) {
-		Grp G = gen_group(160, 100);
+	for (unsigned long le : { 32UL, 48UL }) {        // see the note in group_stacks about ell_e
+		Grp G = gen_group(le == 32 ? 192 : 224, le == 32 ? 128 : 160);
 		for (size_t n : ns) {
 			PedersenCommitmentScheme com(n, G.p, G.q, G.k, G.g, G.pbits, G.qbits);
 			if (!com.CheckGroup()) { propfail("pedersen-group-rejected", "PedersenCommitmentScheme::CheckGroup false " + gd(G)); continue; }
